@@ -6,6 +6,7 @@ unmodified on these proxies; whenever it needs a concrete truth value the
 current Path is asked (`branch`), and the driver (`explore`) re-executes the
 function once per feasible decision sequence.
 """
+import os
 import threading
 import time
 import z3
@@ -51,7 +52,7 @@ class Stats:
 class Path:
     """One execution of the function under test: decision prefix + path condition."""
     cur = None
-    timeout_ms = 120000
+    timeout_ms = int(os.environ.get("VERIF_SOLVER_TIMEOUT_MS", "300000"))     # per query; a time-out is reported as inconclusive (exit 3), never as a pass
 
     def __init__(self, prefix=(), stats=None):
         self.solver = z3.Solver()
